@@ -26,6 +26,8 @@ type Gen struct {
 	UP4 bool
 	// PrecBoundary: draw precedence from the boundaries of the 16-bit range (C16)
 	PrecBoundary bool
+	// ModKinds: when set, Modification draws its kind among these only
+	ModKinds []int
 }
 
 func NewGen(r *Run) *Gen {
@@ -140,6 +142,7 @@ type SessShape struct {
 	NQER       int  // 0..4
 	ExtraPDRs  int  // additional filtered PDR pairs
 	Wide       bool // allow port ranges wider than 100
+	BaseSDF    *FlowSpec // filter of the first PDR pair (nil: match-all)
 }
 
 // Session draws a session: one default uplink/downlink PDR pair plus optional
@@ -193,7 +196,7 @@ func (g *Gen) Session(p *Peer, sh SessShape) *CPSession {
 		}
 		return l
 	}
-	mkPair(1, 255, nil, qerList())
+	mkPair(1, 255, sh.BaseSDF, qerList())
 	for i := 0; i < sh.ExtraPDRs; i++ {
 		mkPair(uint16(3+2*i), g.precedence(), g.Flow(sh.Wide), qerList())
 	}
@@ -260,7 +263,13 @@ func (g *Gen) QER(id uint32) *QERSpec {
 // parameters; PDRs always reference existing FARs / QERs.
 func (g *Gen) Modification(s *CPSession) *ModSpec {
 	m := &ModSpec{}
-	switch g.c(9, "modkind") {
+	kind := 0
+	if len(g.ModKinds) > 0 {
+		kind = g.ModKinds[g.c(len(g.ModKinds), "modkind")]
+	} else {
+		kind = g.c(9, "modkind")
+	}
+	switch kind {
 	case 0: // update the downlink FAR: new tunnel (handover) or buffering
 		f := *s.FAR(2)
 		switch g.c(3, "farupd") {
